@@ -828,7 +828,8 @@ class J1939_22:
         dest_address = pgn.pdu_specific # may be Address.GLOBAL
 
         # iterate all CAs to check if we have to handle this destination address
-        if dest_address != ParameterGroupNumber.Address.GLOBAL:
+        # (pdu2 format has no destination address: pdu_specific is the group extension)
+        if not pgn.is_pdu2_format and dest_address != ParameterGroupNumber.Address.GLOBAL:
             if not self.__ecu_is_message_acceptable(dest_address): # simple peer-to-peer reception without adding a controller-application
                 reject = True
                 for ca in self._cas:
